@@ -52,6 +52,9 @@ MUTANTS = {
     "r06": ("C06", [("revert", "462a8cb"), ("revert", "dbf66b8")]), "r06c": ("C06", [("revert", "462a8cb")]), "r05": ("C05", [("revert", "f6085d3")]), "r11c": ("C11", [("revert", "eb449ba")]),
     "r06b": ("C05", [("revert", "462a8cb"), ("revert", "dbf66b8")]),
     # extras
+    "x17a": ("C17", [sub("verify.py", "        (len(implemented['positional']) < len(required['positional'])) and", "        (len(implemented['positional']) + 1 < len(required['positional'])) and")]),
+    "x17b": ("C17", [sub("verify.py", "    if excs:\n        if len(excs) == 1:", "    if excs:\n        if len(excs) <= 2:")]),
+    "x17c": ("C17", [sub("verify.py", "        if (not isinstance(desc, Method)) and vtype == 'c':", "        if (not isinstance(desc, Method)):")]),
     "x14a": ("C14", [sub("interface.py", "        for hook in adapter_hooks:", "        for hook in reversed(adapter_hooks):")]),
     "x14b": ("C14", [sub("interface.py", "        if alternate is not _marker:\n            return alternate\n        raise TypeError", "        if alternate is not _marker and alternate is not None:\n            return alternate\n        raise TypeError")]),
     "x12a": ("C12", [sub("interface.py", "        if other is None:\n            return -1", "        if other is None:\n            return 1")]),
